@@ -1223,7 +1223,9 @@ def _other_branch(distance: Callable[[object, object], float], val1, val2=None) 
     """
     try:
         result = float(distance(val1, val2))
-    except Exception:  # noqa: BLE001
+    except BaseException:  # noqa: BLE001
+        # The heuristic calls user operators the interpreter itself did not call; also an
+        # exception that is not an ``Exception`` (e.g. a cancellation) must stay in here.
         return inf
     if isnan(result):
         return inf
